@@ -155,7 +155,7 @@ pub fn plan_c01(tier: &str, seed: u64, kem_pairs: usize) -> Plan {
     let max_dims = if tier == "thorough" { 3 } else { 2 };
     let max_attrs = 3;
     let dim_names = ["D", "S", "T"];
-    let attr_names = ["A", "B", "C"];
+    let attr_names = ["A", "B", "C", "E", "F"];
     let mut cases = vec![];
     // shapes: for each dim: (ordered, n_attrs)
     let mut shapes: Vec<Vec<(bool, usize)>> = vec![vec![]];
@@ -181,6 +181,10 @@ pub fn plan_c01(tier: &str, seed: u64, kem_pairs: usize) -> Plan {
         }
         shapes = uniq;
     }
+    // a few taller / wider shapes beyond the exhaustive small ones
+    shapes.push(vec![(true, 5)]);
+    shapes.push(vec![(true, 4), (false, 4)]);
+    shapes.push(vec![(false, 5), (true, 2)]);
     for (si, shape) in shapes.iter().enumerate() {
         let mut lines = vec!["reset".to_string(), "setup M0 K0".to_string()];
         let mut attrs: Vec<Vec<String>> = vec![];
@@ -335,7 +339,7 @@ pub fn plan_c01(tier: &str, seed: u64, kem_pairs: usize) -> Plan {
         per_line: false,
         cases,
         exhaustive: true,
-        rule: format!("every structure shape with <= {max_dims} dimensions (anarchy or hierarchy) of 1..3 attributes (random hints and hierarchy insertion orders); on each, every policy with one clause (at most one attribute per dimension) and '*', and all (or a sample of) two-clause policies: rights of user keys and of encapsulations compared as sets between implementation and model; plus sampled (user policy, encryption policy) pairs where the real keygen/encaps/decaps verdict is compared with the name-level cover relation of the Lean spec; then 2-4 random edits (rename, delete + re-add, insertion at a random rank, store / load of the master key) and an update, and the same rights and cover questions on the edited structure; distinct = distinct canonical traces per structure"),
+        rule: format!("every structure shape with <= {max_dims} dimensions (anarchy or hierarchy) of 1..3 attributes (random hints and hierarchy insertion orders), plus three taller / wider shapes (a 5-level hierarchy; 4 levels x 4 siblings; 5 siblings x 2 levels); on each, every policy with one clause (at most one attribute per dimension) and '*', and all (or a sample of) two-clause policies: rights of user keys and of encapsulations compared as sets between implementation and model; plus sampled (user policy, encryption policy) pairs where the real keygen/encaps/decaps verdict is compared with the name-level cover relation of the Lean spec; then 2-4 random edits (rename, delete + re-add, insertion at a random rank, store / load of the master key) and an update, and the same rights and cover questions on the edited structure; distinct = distinct canonical traces per structure"),
     }
 }
 
